@@ -221,6 +221,14 @@ func regressCases() []regressCase {
 			mkReq("PUT", "/r0", []wire.KV{host, {K: "X-A", V: "a\r\n\tb\r\n  c"}, {K: "Content-Length", V: "12"}}, wire.FrCL, []byte("GET / HTTP/1"), nil, nil),
 			mkReq("POST", "/r1", []wire.KV{host, {K: "Transfer-Encoding", V: "chunked"}}, wire.FrChunked, []byte("hello world"), []int{5}, nil),
 		}, folded: []map[string]bool{{"x-a": true}, nil}},
+		{name: "D15-trailer-name-starting-with-0", reqs: []*wire.Req{
+			mkReq("POST", "/r0", []wire.KV{host, {K: "Transfer-Encoding", V: "chunked"}, {K: "Trailer", V: "0-Trailer, 00"}}, wire.FrChunked, []byte("a"), []int{1}, []wire.KV{{K: "0-Trailer", V: "v"}, {K: "00", V: "w"}}),
+			mkReq("GET", "/r1", []wire.KV{host}, wire.FrNone, nil, nil, nil),
+		}},
+		{name: "D15-streaming-trailer-name-starting-with-0", stream: true, reqs: []*wire.Req{
+			mkReq("POST", "/r0", []wire.KV{host, {K: "Transfer-Encoding", V: "chunked"}, {K: "Trailer", V: "00"}}, wire.FrChunked, nil, nil, []wire.KV{{K: "00", V: "w"}}),
+			mkReq("GET", "/r1", []wire.KV{host}, wire.FrNone, nil, nil, nil),
+		}},
 		{name: "D3-streaming-fixed-body-over-8k-then-pipelined", stream: true, reqs: []*wire.Req{
 			mkReq("POST", "/r0", []wire.KV{host, {K: "Content-Length", V: "9000"}}, wire.FrCL, gen.Body(9000, 0, 1, 0), nil, nil),
 			mkReq("GET", "/r1", []wire.KV{host}, wire.FrNone, nil, nil, nil),
